@@ -21,6 +21,22 @@ Theorem c05_session_independent_of_segmentation :
       = concat (map (transient_of packet) tr).
 Proof. exact session_frames. Qed.
 
+(* ... and when the stream ends INSIDE a frame (the peer went away in mid-frame; g = the unfinished frame, k < |g| bytes of it
+   arrived): the same - every complete frame gives its one result, the unfinished one gives none, then Disconnected *)
+Theorem c05_stream_ending_inside_a_frame :
+  forall (packet : Type) (parse : bytes -> res packet) (ver_of : packet -> option N)
+         (is_keepalive : packet -> bool) (version : N) (m : mode) (verify : bool) (pong : bytes),
+  (forall b, parse b <> Panic) ->
+  forall g k, wf_frame m g -> (k < length g)%nat ->
+  forall fuel fs tr buf,
+    Forall (wf_frame m) fs -> Forall ev_ok tr -> buf ++ data_of tr = concat fs ++ firstn k g ->
+    (length fs + length tr < fuel)%nat ->
+    filter (keep packet) (session packet parse ver_of is_keepalive version m verify pong fuel buf (tr ++ [Eof]))
+      = concat (map (expected_frame packet parse ver_of is_keepalive version verify pong) fs) ++ [Ret RDisconnected]
+    /\ filter (is_transient packet) (session packet parse ver_of is_keepalive version m verify pong fuel buf (tr ++ [Eof]))
+      = concat (map (transient_of packet) tr).
+Proof. exact session_frames_then_partial. Qed.
+
 (* a complete frame at the head of the buffer decodes whatever follows it; a strict prefix asks for more *)
 Theorem c05_complete_frame_decodes :
   forall (packet : Type) (parse : bytes -> res packet) m f rest, wf_frame m f ->
